@@ -1247,7 +1247,7 @@ func ascendingInduction(idx ssa.Value) bool {
 
 var ruleWSSClose = &Rule{
 	ID:    "R-WSSCLOSE",
-	Doc:   "inside a bracket/paren/brace context (pushWSS(false)) the parser advances past the closing delimiter with advanceWSS, never with advance (which swallows the whitespace that separates list elements in the enclosing whitespace-sensitive context): the last token-consuming step before an expression node is returned from such a context is advanceWSS",
+	Doc:   "inside a bracket/paren/brace context (pushWSS(false)) the parser advances past the closing delimiter with advanceWSS, never with advance (which swallows the whitespace that separates list elements in the enclosing whitespace-sensitive context): the last token-consuming step before an expression node is returned from such a context is advanceWSS, also where that step lives in a helper that asserts the delimiter and advances past it",
 	Floor: 3,
 	Run:   runWSSClose,
 }
